@@ -204,6 +204,40 @@ Section IdealProofs.
     apply sig_values in V. tauto.
   Qed.
 
+  (** ** the exact V values: [recoverPlain] rejects everything of more than 8 bits, and after
+      that only 27/28 survive; through the chain-id path only 35+2c / 36+2c *)
+  Lemma recover_plain_v_range h r s vb a : recover_plain oracle h r s vb = SOk a ->
+    (Z.abs vb = 27 \/ Z.abs vb = 28)%Z.
+  Proof.
+    intros E. apply recover_plain_ok in E. destruct E as (v & [Hv|Hv] & Hab & _); subst v; lia.
+  Qed.
+
+  Lemma sender_homestead_v t a : sender oracle H Homestead t = SOk a -> t_v t = 27 \/ t_v t = 28.
+  Proof.
+    intros E. apply sender_ok in E.
+    destruct E as (v & hs & Hv & _ & _ & [[EV _]|(_ & _ & c & Ec & _)]); [lia|discriminate].
+  Qed.
+
+  Lemma sender_chainid_v c t a : sender oracle H (ChainIDSigner c) t = SOk a ->
+    t_v t = 27 \/ t_v t = 28 \/ t_v t = 35 + 2 * c \/ t_v t = 36 + 2 * c.
+  Proof.
+    intros E. apply sender_ok in E.
+    destruct E as (v & hs & Hv & _ & _ & [[EV _]|(P & _ & c' & Ec & D & A)]); [lia|].
+    injection Ec as Ec. subst c'. apply protected_not_27_28 in P.
+    unfold derive_chain_id in D.
+    destruct (t_v t <? 18446744073709551616) eqn:L.
+    - apply N.ltb_lt in L.
+      destruct (t_v t =? 27) eqn:A1; [apply N.eqb_eq in A1; lia|].
+      destruct (t_v t =? 28) eqn:A2; [apply N.eqb_eq in A2; lia|]. cbn [orb] in D.
+      assert (Dz : Z.of_N c = ((Z.of_N (t_v t) - 35) mod 18446744073709551616 / 2)%Z).
+      { rewrite <- D. rewrite Z2N.id; [reflexivity|]. apply Z.div_pos; [apply Z.mod_pos_bound|]; lia. }
+      lia.
+    - apply N.ltb_ge in L. lia.
+  Qed.
+
+  (** hence the same (R, S) never yields a sender for two different V under one signer kind,
+      except 27/28 vs 35+2c/36+2c of the chain-id signer (whose hashes differ, see tx_binding) *)
+
   (** ** chain-id binding *)
   Lemma chainid_mismatch c t : is_protected (t_v t) = true -> derive_chain_id (t_v t) <> c ->
     sender oracle H (ChainIDSigner c) t = SErrChainId.
